@@ -283,8 +283,21 @@ def clause_encoding(prog, rep):
     if e and d:
         ee = set(c.resolved for c in e[0].live_calls() if c.krate == "base64")
         dd = set(c.resolved for c in d[0].live_calls() if c.krate == "base64")
-        eng_e = set(str(k.get("item") or k.get("ty")) for g in [e[0]] for bb, s in g.stmts() for o in s.get("o", []) if isinstance(o, dict) and "c" in o for k in [o["c"]] if "base64" in str(k.get("item") or k.get("ty") or ""))
-        eng_d = set(str(k.get("item") or k.get("ty")) for g in [d[0]] for bb, s in g.stmts() for o in s.get("o", []) if isinstance(o, dict) and "c" in o for k in [o["c"]] if "base64" in str(k.get("item") or k.get("ty") or ""))
+        def engines(g):
+            """the base64 engine constants the function refers to (operands and promoted constants): item paths, e.g. ...::STANDARD"""
+            out = set()
+            for bb, s_ in g.stmts():
+                for o in s_.get("o", []):
+                    if isinstance(o, dict) and "c" in o and "base64" in str(o["c"].get("item") or ""):
+                        out.add(o["c"]["item"])
+            for pr in g.promoted:
+                for k in pr:
+                    if "base64" in str(k.get("item") or ""):
+                        out.add(k["item"])
+            return out
+        eng_e, eng_d = engines(e[0]), engines(d[0])
+        rep.check(bool(eng_e) and bool(eng_d), "encoding", "engine-identified", "the base64 engine constant of both directions is identified (%s)" % sorted(eng_e | eng_d),
+                  "cannot identify the base64 engine used by encode_content / decode_content", e[0].loc())
         rep.check(bool(ee) and bool(dd) and eng_e == eng_d, "encoding", "same-engine", "encode and decode use the same base64 engine %s" % sorted(eng_e),
                   "encode uses %s but decode uses %s" % (sorted(eng_e), sorted(eng_d)), e[0].loc())
 
